@@ -275,7 +275,7 @@ func cmdCheck(args []string) int {
 			defer wg.Done()
 			cmd := exec.Command(bin, "-test.run", "^TestWorker$", "-test.timeout", "0", "-test.cpu", "1",
 				"-prop", *prop, "-seed", strconv.FormatUint(seed, 10), "-from", strconv.Itoa(w), "-stride", strconv.Itoa(W),
-				"-count", strconv.Itoa(per), "-wall", fmt.Sprint(tc.wallS), "-out", outs[w], "-replaydir", replayDir())
+				"-count", strconv.Itoa(per), "-wall", fmt.Sprint(tc.wallS), "-out", outs[w], "-replaydir", replayDir(), "-tier", *tier)
 			rl := filepath.Join(scratch, fmt.Sprintf("race.%d", w))
 			cmd.Env = append(os.Environ(), "GOMAXPROCS=2", "GORACE=halt_on_error=0 log_path="+rl, "BBSIM_RACELOG="+rl)
 			// watchdog: a worker that outlives its wall cap by far is infrastructure trouble
